@@ -115,6 +115,11 @@ def e_uni(chk, thorough):
             ('imp', ('EF', ('and', W, P)), ('EF', W)), ('imp', ('AG', ('and', W, P)), ('AG', W)), ('imp', ('EG', ('and', W, P)), ('EG', P)),
             ('imp', ('EU', ('and', W, P), P), ('EU', W, P)), ('imp', ('AU', W, ('and', W, P)), ('AU', W, P)), ('imp', ('AX', ('and', W, P)), ('AX', W)),
             ('imp', ('and', W, ('bind', 'x', None, ('AX', ('var', 'x')))), ('EX', W))]
+    # an operator applied directly to itself (or to another one) means two steps / two fixed points: compare with the same
+    # formula whose inner application is hidden behind a conjunction with true
+    UT = ('EX', 'AX', 'EF', 'AF', 'EG', 'AG')
+    laws += [('iff', (u1, (u2, W)), (u1, ('and', ('true',), (u2, W)))) for u1 in UT for u2 in UT if u1 == u2 or (u1[1] == u2[1])]
+    laws += [('iff', ('EX', ('EX', W)), ('not', ('AX', ('AX', ('not', W))))), ('iff', ('AX', ('AX', W)), ('not', ('EX', ('EX', ('not', W)))))]
     one_way(chk, thorough)
     chk.bounds['E-UNI'] = 'instances U2, C2 (2 variables, all colours; constrained regulations) and S3 (3 variables, 2 regulators each, 2^12 colours); wild-card sets are arbitrary coloured sets (uninterpreted n-ary parameters)'
     for inst in UC.instances(['U2', 'C2'] + (['S3'] if thorough else [])):
